@@ -190,6 +190,42 @@ def scope_case(rng):
     return case, None, True
 
 
+def fetch_fail_case(rng, fail_cmd):
+    """a VCS step failing while the tags are collected (fetch from an unreachable remote, the remote probe, the tag listing itself):
+    the run either fails, or it starts from what the property prescribes -- it never silently falls back to the config value.
+    The newest tag is ahead of the config value, so a silent fallback is observable."""
+    vp, old, new, flags, d2 = projgen.gen_states(rng)
+    tree = refimpl.tokenize(vp)
+    cfgv, newv = refimpl.render(tree, old), refimpl.render(tree, new)
+    tags = [x for t in gen_tagset(rng, vp, tree, old) for x in t.split()] + [newv]
+    scope = rng.choice(["default", "global", "branch"])
+    rx = re.compile(refimpl.ref_regex(tree))
+    valid = [t for t in tags if rx.fullmatch(t) and _date_ok(tree, t)]
+    want = expected_start(scope, cfgv, valid)
+    case = {"kind": "fetch-fail", "vp": vp, "config_version": cfgv, "tags": tags, "scope": scope, "fail_cmd": fail_cmd, "want": want}
+    with sandbox.Project("c09f") as p:
+        p.write_text("bumpver.toml", '[bumpver]\ncurrent_version = %s\nversion_pattern = %s\ntag_scope = "%s"\n[bumpver.file_patterns]\n"bumpver.toml" = [\'current_version = "{version}"\']\n' % (
+            json.dumps(cfgv), json.dumps(vp), scope))
+        p.add_fake_vcs("git")
+        p.fake_set("branches", "* main 1a2b3c4 [origin/main] msg\n")
+        p.fake_set("remote_url", "https://example.invalid/x.git\n")
+        p.fake_set("tags", "".join(t + "\n" for t in tags))
+        p.fake_set("tags_branch", "".join(t + "\n" for t in tags))
+        p.fake_set("fail_cmd", fail_cmd)
+        code, out, exc = sandbox.run_cli(["show"], p.dir, p.env(), today=dt.date(2026, 9, 29))
+    got = None
+    for line in out.splitlines():
+        if line.startswith("Current Version: "):
+            got = line[len("Current Version: "):]
+    case.update(exit=code, exc=exc, got=got, valid=valid)
+    if code != 0 or got is None:
+        return case, None, False         # the failure is reported: nothing was resolved
+    if got != want and pep_key(got) != pep_key(want):
+        return case, ("`bumpver show` with a failing `git %s` exits 0 and reports %r; the greatest matching tag in scope / config value is %r "
+                      "(config %r, matching tags %r): the tags were silently ignored" % (fail_cmd, got, want, cfgv, valid)), True
+    return case, None, True
+
+
 def _date_ok(tree, text):
     """does the text denote a possible calendar date (when the pattern shows year+month+day or year+day-of-year)?"""
     parts = refimpl.parts_of(tree)
@@ -261,6 +297,11 @@ def run(chk, driver, tier):
     for i in range(n // 4):
         case, verdict, observed = scope_case(rng)
         chk.count("scope_case:%s/%s:%s" % (case["cfg_scope"], case["cli_scope"], "observed" if observed else "no-bump"))
+        chk.oracle_case(case, verdict)
+    for i in range(max(12, n // 16)):
+        fc = ["fetch", "-vv", "--list", "--get"][i % 4]
+        case, verdict, observed = fetch_fail_case(rng, fc)
+        chk.count("fetch_fail:%s:%s" % (fc, "resolved" if observed else "reported"))
         chk.oracle_case(case, verdict)
     known = {f["id"]: f for f in load_known_findings("C09") if f.get("status") == "open"}
     seen = None
